@@ -720,3 +720,472 @@ def show_input(data, limit=600):
     else:
         d["base64"] = base64.b64encode(data).decode() if len(data) <= 200000 else "(omitted: %d bytes)" % len(data)
     return d
+
+
+# =============================================================================================
+# the check
+# =============================================================================================
+PARTIAL_TEXT = (
+    "PARTIAL BY NATURE. Proved in Coq (Properties_C05.v): (1) the length arithmetic of print_msg as "
+    "regenerated from back/utils.c — a per-prefix safety criterion, a computed verdict for the current "
+    "tree and, on the pinned tree, msg_write_within_buffer_refuted (the buffer IS overrun); (2) "
+    "use_depth_bounded for the include stack of scanner.l as a state machine over `use`/EOF events "
+    "with the guard and array size regenerated from the source; (3) the outcome classifier is total, "
+    "exclusive and equivalent to its declarative reading. NOT proved, only observed on the inputs "
+    "listed under `classes`: that the flex/bison-generated scanner and parser, the typechecker, the "
+    "reducer, the emitter and module loading terminate and stay memory-safe on every byte sequence. "
+    "There is no formal semantics of that C code here; the sanitizer/time-out/classifier search is a "
+    "search, not a proof, and says nothing about inputs it did not run.")
+
+
+def sample_sources():
+    return [(os.path.basename(p)[:-4], open(p, "rb").read()) for p in sorted(glob.glob(os.path.join(SAMPLE_DIR, "*.nev")))]
+
+
+def build_search_cases(ctx, rng, workdir, scale):
+    """All input streams of the search; every random choice comes from rng (ctx.seed)."""
+    cases = []
+    samples = sample_sources()
+    neg = set(os.path.basename(p)[:-8] for p in glob.glob(os.path.join(SAMPLE_DIR, "*.nev.err")))
+    # (0) minimised failures kept from earlier runs: always first
+    cdir = os.path.join(common.VERIF, "corpus", "C05")
+    for p in sorted(glob.glob(os.path.join(cdir, "*.nev"))):
+        cases.append(Case("K." + os.path.basename(p)[:-4], "kept-corpus", open(p, "rb").read(), "str", None))
+    for d in sorted(glob.glob(os.path.join(cdir, "*/"))):
+        mp = os.path.join(d, "main.nev")
+        if os.path.exists(mp):
+            cases.append(Case("K." + os.path.basename(d.rstrip("/")), "kept-corpus", open(mp, "rb").read(), "str", d.rstrip("/")))
+    # (1) the sample corpus, as string and as file, with and without the module path
+    for name, src in samples:
+        cls = "corpus-negative" if name in neg else "corpus"
+        cases.append(Case(name + ".s", cls, src, "str", SAMPLE_PATH))
+        cases.append(Case(name + ".f", cls, src, "file", SAMPLE_PATH))
+        cases.append(Case(name + ".n", cls + "-nopath", src, "str", None))
+    srcs = [s for _, s in samples if s.strip()]
+    pool = []
+    for s in rng.sample(srcs, min(200, len(srcs))):
+        pool += [t for t in tokenize(s) if not t.isspace()]
+    # (2) token-level mutation and truncation of samples
+    for i in range(int(12000 * scale)):
+        s = rng.choice(srcs)
+        ops = []
+        for _ in range(rng.choice([1, 1, 1, 2, 3, 5])):
+            s, op = mutate_tokens(rng, s, pool)
+            ops.append(op)
+        cases.append(Case("m%d" % i, "mutate", s, "str" if rng.random() < 0.8 else "file",
+                          SAMPLE_PATH if rng.random() < 0.7 else None, {"ops": ops}))
+    for i in range(int(3000 * scale)):
+        s = rng.choice(srcs)
+        if len(s) > 2:
+            k = rng.randrange(1, len(s))
+            cases.append(Case("t%d" % i, "truncate", s[:k], "str", SAMPLE_PATH))
+    step_src = rng.sample(srcs, min(int(6 * scale) + 1, len(srcs)))
+    for j, s in enumerate(step_src):                      # every k-th byte of a few samples
+        k = max(1, len(s) // 120)
+        for cut in range(1, len(s), k):
+            cases.append(Case("tk%d.%d" % (j, cut), "truncate-every-k", s[:cut], "str", SAMPLE_PATH))
+    # (3) grammar-aware generation with injected faults
+    g = ProgGen(rng)
+    for i in range(int(4000 * scale)):
+        p = g.program().encode()
+        if rng.random() < 0.12:
+            cases.append(Case("g%d" % i, "generated-valid", p))
+            continue
+        names = []
+        for _ in range(rng.choice([1, 1, 1, 2, 3])):
+            p, nm = inject_fault(rng, p)
+            names.append(nm)
+        cases.append(Case("g%d" % i, "generated-fault", p, "str", None, {"faults": names}))
+    # (4) raw bytes
+    for i in range(int(3000 * scale)):
+        d, k = raw_bytes(rng, rng.choice(srcs))
+        cases.append(Case("r%d" % i, "raw:" + k, d, "file" if (b"\x00" in d or rng.random() < 0.5) else "str", SAMPLE_PATH))
+    # (5) long tokens and deep nesting
+    sizes = [10, 100, 255, 256, 1000, 1023, 1024, 1100, 5000, 20000, 100000]
+    if scale > 1:
+        sizes += [rng.randint(900, 1200) for _ in range(6)] + [50000, 300000]
+    for n in sizes:
+        for nm, d in long_token_cases([n]):
+            cases.append(Case("L.%s.%d" % (nm, n), "long:" + nm, d, "str", None, {"n": n}))
+    depths = [10, 100, 1000, 3000, 9990, 10000, 10010]
+    if scale > 1:
+        depths += [rng.randint(2000, 12000) for _ in range(4)] + [30000]
+    for n in depths:
+        for nm, d in nesting_cases([n]):
+            cases.append(Case("N.%s.%d" % (nm, n), "nest:" + nm, d, "str", None, {"n": n}))
+    # (6) `use` graphs compiled for real: chains, cycles, diamonds, missing and broken modules
+    kinds = ["chain", "chain-missing-end", "cycle", "self", "diamond", "wide", "tree", "random"]
+    mods = os.path.join(workdir, "mods")
+    i = 0
+    for kind in kinds:
+        for n in ([1, 2, 3, 14, 15, 16, 17, 18, 25, 40] if kind in ("chain", "chain-missing-end", "cycle") else [3, 8, 20]):
+            for broken in (None, 0, n - 1):
+                gph, missing, main = use_graph(rng, kind, n)
+                root = os.path.join(mods, "u%d" % i)
+                src = write_use_graph(root, gph, main, True, broken)
+                cases.append(Case("U%d.%s.%d" % (i, kind, n), "use:" + kind + ("" if broken is None else "+broken-module"),
+                                  src, "str" if i % 2 else "file", root, {"graph": {modname(a): [modname(b) for b in bs] for a, bs in gph.items()}}))
+                i += 1
+    for r in range(int(40 * scale)):
+        gph, missing, main = use_graph(rng, "random", rng.randint(2, 24))
+        root = os.path.join(mods, "u%d" % i)
+        src = write_use_graph(root, gph, main, True, rng.choice([None, None, 0, 1]))
+        cases.append(Case("U%d.random" % i, "use:random", src, "str", root))
+        i += 1
+    # a module whose NAME is longer than the message buffer: the file name is cut to
+    # MAX_FILE_NAME_LEN-1 characters, the module name is not
+    root = os.path.join(mods, "longname")
+    os.makedirs(root, exist_ok=True)
+    for L in (300, 1100):
+        with open(os.path.join(root, "a" * 255), "w") as f:
+            f.write("module x { func f() -> int { zz } }\n")
+        cases.append(Case("U.longname.%d" % L, "use:long-module-name", b"use " + b"a" * L + b"\nfunc main() -> int { 0 }\n", "str", root))
+    for nm, txt in (("emptymod", ""), ("nomodule", "func f() -> int { 1 }\n"), ("binary", "\x00\xff\x80"), ("onlyuse", "use onlyuse\n")):
+        with open(os.path.join(root, nm + ".nev"), "wb") as f:
+            f.write(txt.encode("latin-1"))
+        cases.append(Case("U.odd.%s" % nm, "use:odd-module-file", ("use %s\nfunc main() -> int { 0 }\n" % nm).encode(), "str", root))
+    os.makedirs(os.path.join(root, "adir.nev"), exist_ok=True)
+    cases.append(Case("U.odd.directory", "use:odd-module-file", b"use adir\nfunc main() -> int { 0 }\n", "str", root))
+    cases.append(Case("U.odd.slashes", "use:odd-module-file", b"use ../longname/emptymod\nuse ./nomodule\nuse /etc/passwd\nfunc main() -> int { 0 }\n", "str", root))
+    return cases
+
+
+def msgbuf_correspondence(ctx, drv, workdir):
+    """(a) the extracted print_msg arithmetic against ASan's verdict on the real print_msg."""
+    cases = []
+    lens = list(range(960, 1012)) + [10, 500, 900, 1023, 1024, 1100, 2000, 5000]
+    for L in lens:
+        cases.append(Case("mb.s.%d" % L, "msgbuf", b"func main() -> int { " + b"a" * L + b" }", "str"))
+    for L in list(range(930, 1000, 3)) + [10, 1100]:
+        cases.append(Case("mb.f.%d" % L, "msgbuf", b"func main() -> int { " + b"b" * L + b" }", "file"))
+    for L in list(range(975, 1006, 2)) + [10, 1100]:
+        cases.append(Case("mb.l.%d" % L, "msgbuf", b"\n" * 12345 + b"func main() -> int { " + b"c" * L + b" }", "str"))
+    obs = run_cases(drv, cases, workdir, tag="mb")
+    q, info = [], {}
+    for c in cases:
+        o = obs.get(c.id)
+        if o is None:
+            continue
+        first = o.diag.split(b"\n")[0]
+        m = re.match(rb"^(.*?:\d+: error: )(.*)$", first, re.S)
+        if not m:
+            continue
+        p, b = len(m.group(1)), len(m.group(2))
+        over = b"AddressSanitizer: stack-buffer-overflow" in o.diag and b"in print_msg" in o.diag
+        other = (o.ret is None) and not over
+        info[c.id] = (p, b, over, other, c)
+        q.append("%s %d %d" % (c.id, p, b))
+    out = run_ocaml("msg", ("\n".join(q) + "\n").encode())
+    lines = out.splitlines()
+    verdict = lines[0] if lines else "VERDICT ?"
+    n = agree = n_over = n_within = 0
+    first_bad = None
+    boundary = {}
+    for l in lines[1:]:
+        a = l.split(" ")
+        if len(a) != 2 or a[0] not in info:
+            continue
+        p, b, over, other, c = info[a[0]]
+        if other:
+            continue
+        n += 1
+        model_over = a[1] == "overflow"
+        n_over += over
+        n_within += (not over)
+        if model_over == over:
+            agree += 1
+        elif first_bad is None:
+            first_bad = {"case": c.id, "prefix_len": p, "body_len": b, "model": a[1], "asan_overflow": over}
+        if over:
+            boundary[p] = min(boundary.get(p, 1 << 30), b)
+    ctx.count(evaluations=n, nontrivial=min(n_over, n_within) * 2)
+    ctx.coverage["msgbuf_tie"] = {"cases": n, "agree": agree, "overflow_observed": n_over, "within_observed": n_within,
+                                  "model_verdict": verdict, "smallest_overflowing_body_by_prefix": {str(k): v for k, v in sorted(boundary.items())}}
+    if first_bad is not None:
+        ctx.correspondence_broken("msgbuf-arithmetic-vs-asan", first_bad)
+    # replay of the Coq witness (18, 1100) of msg_write_within_buffer_refuted on the real compiler
+    probe = info.get("mb.s.10")
+    if probe:
+        fixed = probe[1] - 10
+        L = 1100 - fixed
+        c = Case("mb.witness", "msgbuf-witness", b"func main() -> int { " + b"a" * L + b" }", "str")
+        o = run_cases(drv, [c], workdir, tag="mw").get(c.id)
+        over = o is not None and b"stack-buffer-overflow" in o.diag and b"in print_msg" in o.diag
+        ctx.coverage["msgbuf_tie"]["witness_replay"] = {
+            "coq_witness": {"prefix_len": 18, "body_len": 1100}, "identifier_length": L,
+            "input": "func main() -> int { " + "a{x%d}" % L + " }", "asan_stack_buffer_overflow_in_print_msg": over}
+        if verdict.startswith("VERDICT unsafe") and not over:
+            ctx.correspondence_broken("msgbuf-witness-replay", {"identifier_length": L, "observed": (o.diag[:300].decode("latin-1") if o else None)})
+    return verdict
+
+
+def usestack_correspondence(ctx, drv, workdir, rng, scale):
+    """(b) the extracted scanner walk against the real scanner (tokens mode) on module graphs."""
+    mods = os.path.join(workdir, "umods")
+    cases, q, graphs = [], [], {}
+    kinds = ["chain", "chain-missing-end", "cycle", "self", "diamond", "wide", "tree"]
+    i = 0
+    specs = []
+    for kind in kinds:
+        for n in ([1, 2, 5, 14, 15, 16, 17, 18, 19, 30] if kind in ("chain", "chain-missing-end", "cycle") else [4, 9, 33]):
+            specs.append((kind, n))
+    for _ in range(int(150 * scale)):
+        specs.append(("random", rng.randint(1, 30)))
+    for kind, n in specs:
+        gph, missing, main = use_graph(rng, kind, n)
+        root = os.path.join(mods, "g%d" % i)
+        src = write_use_graph(root, gph, main, False)
+        cid = "ug%d" % i
+        cases.append(Case(cid, "usestack:" + kind, src, "tokens", root))
+        q.append("G %s" % cid)
+        for a, bs in gph.items():
+            q.append("M %d %s" % (a, " ".join(str(b) for b in bs)))
+        q.append("MAIN %s" % " ".join(str(b) for b in main))
+        q.append("END")
+        graphs[cid] = (kind, n, gph, main)
+        i += 1
+    obs = run_cases(drv, cases, workdir, tag="ug")
+    out = run_ocaml("use", ("\n".join(q) + "\n").encode())
+    model = {}
+    for l in out.splitlines():
+        m = re.match(r"(\S+) ptrs=(\S*) final=(-?\d+) term=(\d) errors=(\d+) opened=(\S*)$", l)
+        if m:
+            model[m.group(1)] = ([int(x) for x in m.group(2).split(",") if x], int(m.group(3)), int(m.group(5)))
+    n = agree = deep = 0
+    first_bad = None
+    maxptr = 0
+    for c in cases:
+        o = obs.get(c.id)
+        if o is None or o.use is None:
+            # the scanner itself crashed: that is a property violation, reported by the caller
+            k, key, what = judge(c, o, {})
+            if k in ("violation", "timeout", "asan-stack"):
+                kind, nn, gph, main = graphs[c.id]
+                ctx.violation(key or "use:scanner-crash", "scanning a `use` graph (%s, %d modules): %s" % (kind, nn, what),
+                              {"case": {"main": c.data.decode(), "modules": {modname(a): ["use " + modname(b) for b in bs] for a, bs in gph.items()}},
+                               "expected": "tokens until EOF", "observed": (o.diag[-1500:].decode("latin-1") if o else None)})
+            continue
+        n += 1
+        mp = model.get(c.id)
+        real = (o.use[0], o.use[1])
+        nerr = len([l for l in o.diag.split(b"\n") if b"error:" in l])
+        maxptr = max([maxptr] + real[0])
+        if mp and mp[0] == real[0] and mp[1] == real[1] and mp[2] == nerr:
+            agree += 1
+            if real[0] and max(real[0]) >= 15:
+                deep += 1
+        elif first_bad is None:
+            kind, nn, gph, main = graphs[c.id]
+            first_bad = {"case": c.id, "kind": kind, "modules": nn, "model": mp, "scanner": [real[0], real[1], nerr]}
+    ctx.count(evaluations=n, nontrivial=deep)
+    ctx.coverage["usestack_tie"] = {"graphs": n, "agree": agree, "graphs_reaching_depth_15_or_more": deep,
+                                    "largest_use_stack_ptr_seen": maxptr,
+                                    "compared": "use_stack_ptr after every module-name token, its final value, number of <USE> diagnostics"}
+    if first_bad is not None:
+        ctx.correspondence_broken("usestack-walk-vs-scanner", first_bad)
+
+
+def confirm_on_plain(plain_drv, workdir, cases, timeout=30):
+    """Re-run inputs on the non-sanitized build with the default 8 MiB stack."""
+    obs = run_cases(plain_drv, cases, workdir, timeout=timeout, tag="pl", extra_env={"ASAN_OPTIONS": ""})
+    died = {}
+    for c in cases:
+        o = obs.get(c.id)
+        if o is not None and o.status.startswith("signal_"):
+            died[c.id] = o.status
+    return died, obs
+
+
+def bisect_depth(plain_drv, workdir, nm, lo, hi, timeout=30):
+    """Smallest depth (to ~3%) at which construct nm kills the plain build; lo survives, hi dies."""
+    while hi - lo > max(1, hi // 32):
+        mids = sorted(set(lo + (hi - lo) * k // 8 for k in range(1, 8)))
+        cs = []
+        for m in mids:
+            d = dict(nesting_cases([m]))[nm]
+            cs.append(Case("bd.%d" % m, "nest:" + nm, d))
+        died, _ = confirm_on_plain(plain_drv, workdir, cs, timeout)
+        dead = [m for m in mids if "bd.%d" % m in died]
+        alive = [m for m in mids if "bd.%d" % m not in died]
+        nhi = min(dead) if dead else hi
+        nlo = max([m for m in alive if m < nhi] + [lo])
+        if (nlo, nhi) == (lo, hi):
+            break
+        lo, hi = nlo, nhi
+    return hi
+
+
+def replay_case(ctx, drv, workdir):
+    r = json.load(open(ctx.replay))
+    inp = r.get("input", {})
+    data = base64.b64decode(inp["base64"]) if "base64" in inp and not inp["base64"].startswith("(") else inp.get("text", "").encode("latin-1")
+    path = r.get("never_path")
+    if r.get("modules"):
+        path = os.path.join(workdir, "replaymods")
+        os.makedirs(path, exist_ok=True)
+        for nm, txt in r["modules"].items():
+            with open(os.path.join(path, nm), "w") as f:
+                f.write(txt)
+    c = Case("replay", r.get("class", "replay"), data, r.get("mode", "str"), path)
+    obs = run_cases(drv, [c], workdir, timeout=30)
+    ver = classify(list(obs.values()))
+    k, key, what = judge(c, obs.get("replay"), ver)
+    ctx.coverage["replay"] = {"file": ctx.replay, "verdict": k, "key": key, "what": what}
+    ctx.count(evaluations=1, nontrivial=1)
+    if k in ("violation", "timeout"):
+        ctx.violation(key, what, {"case": r.get("case"), "input": inp, "mode": c.mode, "observed": obs["replay"].diag[-1500:].decode("latin-1")})
+
+
+def run(ctx):
+    import gen_frontconsts
+    t0 = time.time()
+    g = gen_frontconsts.generate()
+    ctx.coverage["regenerated"] = {"file": "coq/Gen/FrontConsts.v", "values": g["values"], "changed_this_run": g["changed"]}
+    if g["problems"]:
+        ctx.correspondence_broken("gen_frontconsts", g["problems"])
+    ctx.proofs()
+    ctx.coverage["partial"] = PARTIAL_TEXT
+    lib = common.repobuild("asan")
+    plain = common.repobuild("plain")
+    ok, log = common.ocaml_build()
+    if not ok:
+        ctx.correspondence_broken("ocaml-build", log[-2000:])
+        return
+    drv = common.cc_driver("compiledrive", ["front/compiledrive.c"], lib)
+    pdrv = common.cc_driver("compiledrive", ["front/compiledrive.c"], plain)
+    workdir = tempfile.mkdtemp(prefix="nvc05.", dir="/var/tmp")
+    try:
+        if getattr(ctx, "replay", None):
+            replay_case(ctx, drv, workdir)
+            return
+        _run(ctx, drv, pdrv, workdir, t0)
+    finally:
+        shutil.rmtree(workdir, ignore_errors=True)
+
+
+def _run(ctx, drv, pdrv, workdir, t0):
+    rng = random.Random(ctx.seed * 1000003 + 5)
+    thorough = ctx.tier == "thorough"
+    scale = 8.0 if thorough else 1.0
+    broken_before = len(ctx.broken)
+    verdict = msgbuf_correspondence(ctx, drv, workdir)
+    usestack_correspondence(ctx, drv, workdir, rng, scale)
+    if len(ctx.broken) > broken_before:
+        scale *= 2          # §4.4 step 3: a tie or an obligation broke -> search with a larger budget
+    cases = build_search_cases(ctx, rng, workdir, scale)
+    t_gen = time.time()
+    obs = run_cases(drv, cases, workdir, timeout=10 if not thorough else 20)
+    verdicts = classify(list(obs.values()))
+    t_run = time.time()
+    by_class, by_verdict = {}, {}
+    findings = {}          # key -> list of (case, obs, what)
+    asan_stack = []
+    seen_inputs = set()
+    nontrivial = 0
+    memexh = 0
+    for c in cases:
+        o = obs.get(c.id)
+        k, key, what = judge(c, o, verdicts)
+        cls = c.cls.split(":")[0]
+        by_class.setdefault(cls, {}).setdefault(k, 0)
+        by_class[cls][k] += 1
+        by_verdict[k] = by_verdict.get(k, 0) + 1
+        h = hashlib.sha1(c.data + c.mode.encode() + (c.path or "").encode()).digest()
+        if h not in seen_inputs:
+            seen_inputs.add(h)
+            if k != "ok":
+                nontrivial += 1
+        if o is not None and b"memory exhausted" in o.diag:
+            memexh += 1
+        if k == "asan-stack":
+            asan_stack.append((c, o, key, what))
+        elif k in ("violation", "timeout"):
+            findings.setdefault(key, []).append((c, o, what))
+        if k in ("ok", "diagnosed") and len(ctx.coverage["samples"]) < 5 and (len(c.data) < 200) and c.cls.startswith(("generated", "mutate", "raw")):
+            ctx.sample({"class": c.cls, "input": show_input(c.data, 200), "ret": o.ret, "classifier": k,
+                        "diagnostics_first_line": o.diag.split(b"\n")[0].decode("latin-1")[:120]})
+    ctx.count(evaluations=len(cases), nontrivial=nontrivial)
+    # stack overflows seen under ASan only count if the plain build (8 MiB stack) dies too
+    confirmed, asan_only = [], 0
+    if asan_stack:
+        died, _ = confirm_on_plain(pdrv, workdir, [c for c, _, _, _ in asan_stack])
+        for c, o, key, what in asan_stack:
+            if c.id in died:
+                confirmed.append((c, o, key, what))
+            else:
+                asan_only += 1
+    # left-recursive constructs are not bounded by the parser stack: try them at 10^5.. on the plain build
+    chain = ["binop-left-chain", "binop-left-chain-bad", "index-chain", "attr-chain", "string-concat-chain", "seq-long",
+             "many-errors", "array-literal-wide", "many-args", "many-funcs"]
+    big = [100000] + ([300000, 1000000] if thorough else [])
+    ccs = []
+    for n in big:
+        d = dict(nesting_cases([n]))
+        for nm in chain:
+            ccs.append(Case("P.%s.%d" % (nm, n), "nest:" + nm, d[nm], "str", None, {"n": n}))
+    died, pobs = confirm_on_plain(pdrv, workdir, ccs, timeout=60)
+    pver = classify([o for o in pobs.values()])
+    chain_dead = {}
+    for c in ccs:
+        cls = "nest-plain"
+        o = pobs.get(c.id)
+        if c.id in died:
+            k = "violation"
+            nm = c.cls.split(":")[1]
+            chain_dead[nm] = min(chain_dead.get(nm, 1 << 60), c.meta["n"])
+        else:
+            k, key, what = judge(c, o, pver)
+            if k in ("violation", "timeout"):
+                findings.setdefault(key, []).append((c, o, what))
+        by_class.setdefault(cls, {}).setdefault(k, 0)
+        by_class[cls][k] += 1
+    ctx.count(evaluations=len(ccs), nontrivial=len(ccs))
+    for nm, n in sorted(chain_dead.items()):
+        depth = bisect_depth(pdrv, workdir, nm, 10000, n) if n == 100000 else n
+        src = dict(nesting_cases([3]))[nm].decode()
+        ctx.violation("stack-overflow:chain:%s" % nm,
+                      "the compiler dies with SIGSEGV (stack exhausted by recursion over the expression tree, non-sanitized build, "
+                      "8 MiB stack) on a `%s` of about %d elements" % (nm, depth),
+                      {"case": {"construct": nm, "elements": depth, "shape_with_3_elements": src,
+                                "generator": "checks/c05.py nesting_cases([%d])['%s']" % (depth, nm)},
+                       "expected": "ok or diagnosed", "observed": "signal 11 (plain build); ASan build: stack-overflow report",
+                       "class": "nest:" + nm, "mode": "str"})
+    for c, o, key, what in confirmed:
+        findings.setdefault(key, []).append((c, o, what + " (also dies on the non-sanitized build)"))
+    # report every distinct mechanism once, with a shrunk input
+    known = set(k.get("key") for k in ctx.known if k.get("status", "known") == "known")
+    shrink_budget = 40 if thorough else 12
+    for key in sorted(findings, key=lambda k: (k is None, str(k))):
+        lst = findings[key]
+        c, o, what = min(lst, key=lambda t: len(t[0].data))
+        data, tested = c.data, 0
+        if key not in known and shrink_budget > 0 and key is not None and len(c.data) > 12 and not c.cls.startswith("use:"):
+            shrink_budget -= 1
+            data, tested = shrink(drv, workdir, c, key, budget_rounds=16 if thorough else 10)
+        replay = {"case": {"id": c.id, "class": c.cls, "meta": c.meta, "found_in_cases": len(lst), "shrink_runs": tested,
+                           "original_length": len(c.data)},
+                  "input": show_input(data), "mode": c.mode, "class": c.cls,
+                  "never_path": (c.path if c.path and c.path.startswith(common.REPO) else None),
+                  "expected": "ret=0 without `error:` line, or ret!=0 with a `file:line: error:` line; no signal, sanitizer report or time-out",
+                  "observed": {"status": o.status if o else None, "ret": o.ret if o else None,
+                               "diagnostics_tail": (o.diag[-1800:].decode("latin-1") if o else None)}}
+        if c.path and not c.path.startswith(common.REPO) and os.path.isdir(c.path):
+            mods = {}
+            for fn in sorted(os.listdir(c.path))[:60]:
+                fp = os.path.join(c.path, fn)
+                if os.path.isfile(fp):
+                    mods[fn] = open(fp, "rb").read().decode("latin-1")
+            replay["modules"] = mods
+        ctx.violation(key or ("hang:%s" % c.cls), what, replay)
+    ctx.coverage["rule"] = (
+        "every input is compiled by the tree's libnev.a (ASan+UBSan build, -DNEVER_VERIF) in a forked child with a time limit; "
+        "the oracle is the property itself: no signal/abort/sanitizer report/time-out, and the extracted verified classifier "
+        "says ok (ret=0, no `error:` line) or diagnosed (ret!=0, >=1 `file:line: error:` line). distinct_nontrivial = distinct "
+        "inputs that left the success path (a diagnostic was produced or the oracle failed) + tie cases on both sides of a boundary. "
+        "Stack overflows reported by ASan count only if the non-sanitized build dies too.")
+    ctx.coverage["classes"] = by_class
+    ctx.coverage["verdicts"] = by_verdict
+    ctx.coverage["parser_memory_exhausted_diagnosed"] = memexh
+    ctx.coverage["asan_only_stack_overflows_not_counted"] = asan_only
+    ctx.coverage["distinct_failure_mechanisms"] = sorted(str(k) for k in findings) + ["stack-overflow:chain:%s" % n for n in sorted(chain_dead)]
+    ctx.coverage["timing_s"] = {"generate": round(t_gen - t0, 1), "run+classify": round(t_run - t_gen, 1), "total": round(time.time() - t0, 1)}
